@@ -593,8 +593,21 @@ fn single_channel(reg: Reg, front: Front, ch: u8, rng: &mut Prng, col: &mut Coll
     let f = net.mac_downlink(0, &cmds, cmds.len() <= 15);
     let silent = Script::silent();
     let script = Script::rx1(f);
+    // dynamic plans: two uplinks later the network tries to delete that one channel
+    // (NewChannelReq with frequency 0): refused or not, the device must go on transmitting
+    let deleter = if !reg.fixed() && (ch as usize) >= reg.default_channels().len() {
+        col.event("delete_last_channel_attempts");
+        Some(Script::rx1(net.mac_downlink(1, &new_channel_req(ch, 0, 0x50), rng.bool())))
+    } else {
+        None
+    };
     for i in 0..6 {
-        let r = w.dev.transact(Action::Send { data: &[i as u8], port: 1, confirmed: false }, if i == 0 { &script } else { &silent });
+        let sc = match (i, &deleter) {
+            (0, _) => &script,
+            (2, Some(d)) => d,
+            _ => &silent,
+        };
+        let r = w.dev.transact(Action::Send { data: &[i as u8], port: 1, confirmed: false }, sc);
         col.event("calls_returned");
         if let Resp::Panic(m, l) = &r {
             report(reg, front, true, "single-channel", &Sym::SendU, m, l, &trace, i, col);
